@@ -237,6 +237,20 @@ PROPS["C04"] = {
     "assumptions": [],
 }
 
+PROPS["C08"] = {
+    "pkg": "stk", "env": {"SIM_PROP": "C08"},
+    "legs": ["frag/sim", "mbapp/sim", "mux-string/sim", "mux-varint/sim", "mux-u16/sim", "mux-u32/sim", "mux-u64/sim", "askmux-string/mbapp/sim", "askmux-varint/mbapp/sim",
+             "multi/mem+sim", "multi/mbapp/mem+mbapp/sim", "p2pke/sim", "frag/p2pke/sim", "mbapp/p2pke/sim", "wl/mbapp/sim", "map/frag/sim", "frag/frag/sim", "mbapp/frag/sim", "frag/mem", "mbapp/mem", "mux-string/mem",
+             "session", "dht", "frag/sim", "mbapp/sim", "mux-string/sim"],
+    "runs": {"quick": 2600, "thorough": 200000}, "budget": {"quick": 240, "thorough": 2400},
+    "rule": "one run = one packet-facing layer (fragmenting swarm, message-box swarm incl. ask path, the five multiplexers incl. ask multiplexers, multi-transport, P2PKE swarm/channel, nestings; leg session: real P2PKE Sessions under the byte- and protocol-level adversary of C02/C03; leg dht: DHT handlers and caches) with honest traffic and an adversary at the transport that knows nothing of the formats: random bytes, and mutations of genuine packets captured in the same run (bit flips, truncation at every length, extension, boundary integers written at or inserted before any offset incl. maximal/overlong uvarints, spliced prefixes), mostly re-injected with the genuine packet's source and destination so that they contradict the genuine siblings already in the reassembly state; clock advances across the GC timers; "
+            "non-trivial = a fault was injected and honest traffic was delivered; distinct = distinct scheduler decision traces",
+    "components": TIER_A,
+    "level_text": "seeded exploration; oracle: the process survives (worker processes report the seed before each run; a worker that dies is attributed to that seed and the run is reproduced by seed) and afterwards, on a fault-free network, a valid message is still delivered",
+    "level_note": "pure text parsers (address and key parsing of attacker-chosen strings) are reached only through what the runs produce; the raw QUIC frame reader is Tier B and not in this leg",
+    "assumptions": [],
+}
+
 NOT_APPLICABLE = {
     "C17": "pure functions of their input (key/peer-id marshal, parse, equality, fingerprint): no schedule, clock, fault or second party for a simulator to vary; see DESIGN.md §7",
 }
